@@ -76,16 +76,26 @@ def ruleDeps (ev : EvalExpr) (flat : Flat) : Option String → Except GErr (Opti
   | some d => (liftX "rule-deps" (expandEvalS ev flat .ignore d)).map some
   | none => .ok none
 
+/-- the rule as `NinjaRuleBuilder` + `expand` leave it, before `single_line` and `named` -/
+def rawNinjaRule (rule : Rule) (pre cmd : String) (deps : Option String) : NinjaRule :=
+  { name := rule.name, command := pre ++ cmd, description := some (rule.description.getD rule.name),
+    deps := deps, rspfile := rule.rspfile, rspfileContent := rule.rspfileContent,
+    pool := rule.pool, always := rule.always }
+
 def mkNinjaRule (rule : Rule) (pre cmd : String) (deps : Option String) : NinjaRule :=
-  ({ name := rule.name, command := pre ++ cmd, description := some (rule.description.getD rule.name),
-     deps := deps, rspfile := rule.rspfile, rspfileContent := rule.rspfileContent,
-     pool := rule.pool, always := rule.always } : NinjaRule).named
+  (rawNinjaRule rule pre cmd deps).named
+
+/-- `single_line()` then `named()`; a line break inside a printed value is an error -/
+def finishRule (r : NinjaRule) : Except GErr NinjaRule :=
+  match r.singleLine with
+  | some r' => .ok r'.named
+  | none => .error (.error "ninja/mod.rs:rule value contains a line break")
 
 def ruleToNinja (ev : EvalExpr) (rule : Rule) (flat : Flat) : Except GErr NinjaRule := do
   let exports ← applyExports ev flat rule.export
   let cmd ← liftX "rule-cmd" (expandEvalS ev flat .ignore rule.cmd)
   let deps ← ruleDeps ev flat rule.gccDeps
-  return mkNinjaRule rule (exportsPrefix exports) cmd deps
+  finishRule (rawNinjaRule rule (exportsPrefix exports) cmd deps)
 
 /-! ### build-order graph (`solvent::DepGraph`, deterministic feature) -/
 
@@ -397,6 +407,12 @@ def customOut (ev : EvalExpr) (flat : Flat) (o : String) : Except GErr String :=
 def customRule (cb : CustomBuild) (cmd : String) : NinjaRule :=
   ({ name := "BUILD", command := cmd, description := some "BUILD ${out}", deps := cb.gccDeps } : NinjaRule).named
 
+/-- `single_line()` on the rule of a custom build: its description is fixed, so the command (a line break at its end is dropped) and
+    the depfile decide -/
+def customCmd (cb : CustomBuild) (cmd0 : String) : Except GErr String :=
+  if hasLineBreak (trimLineEnd cmd0) || optHasLineBreak cb.gccDeps then .error (.error "ninja/mod.rs:rule value contains a line break")
+  else .ok (trimLineEnd cmd0)
+
 def outsAlias (outs : List String) : String := "outs_" ++ hashPaths "outs" outs
 
 /-- the statements of a custom build: rule, build, alias for the outputs -/
@@ -409,7 +425,8 @@ def customStmts (cb : CustomBuild) (cmd : String) (srcs outs : List String) (com
 /-- a module with a `build:` section (after the "has an output" test) -/
 def customBuildStepCore (ev : EvalExpr) (flat : Flat) (m : Module) (srcdir : String) (sources : List String)
     (combined : Option (List String)) (cb : CustomBuild) (ls : LoopState) : Except GErr LoopState := do
-  let cmd ← unwrapX "generate.rs:custom build cmd" (expandEvalS ev flat .empty (" && ".intercalate cb.cmd))
+  let cmd0 ← unwrapX "generate.rs:custom build cmd" (expandEvalS ev flat .empty (" && ".intercalate (cb.cmd.map trimLineEnd)))
+  let cmd ← customCmd cb cmd0
   let srcs ← sources.mapM (customSource ev flat srcdir)
   let outs ← (cb.out.getD []).mapM (customOut ev flat)
   return { ls with files := ls.files.extend m.name [outsAlias outs],
